@@ -110,6 +110,16 @@ func grammarLiteralFull(src []byte) (goast.Expr, error) {
 type lowerReader struct {
 	flags  pvcase.Flags
 	nextID int
+	// readback mode (pvlower -readback): code-bearing nodes are accepted; each gets a block number in order of
+	// appearance, and the name of its `run` method is recorded
+	allowCode bool
+	blocks    []readBlock
+}
+
+// readBlock is one code block found by the readback mode.
+type readBlock struct {
+	Kind byte // 'a', 'p', 's'
+	Run  string
 }
 
 type fields struct {
@@ -499,7 +509,39 @@ func (r *lowerReader) expr(e goast.Expr) *pvcase.Expr {
 		}
 		return n
 	case "actionExpr", "andCodeExpr", "notCodeExpr", "stateCodeExpr":
-		r.errf("%s in a grammar without code blocks", typ)
+		if !r.allowCode {
+			r.errf("%s in a grammar without code blocks", typ)
+		}
+		kind := map[string]string{"actionExpr": pvcase.KAct, "andCodeExpr": pvcase.KAndc, "notCodeExpr": pvcase.KNotc, "stateCodeExpr": pvcase.KStc}[typ]
+		n := r.node(kind)
+		var f *fields
+		if typ == "actionExpr" {
+			f = r.keyed(typ, lit, "pos", "run", "expr")
+		} else {
+			f = r.keyed(typ, lit, "pos", "run")
+		}
+		r.position(f)
+		run := f.get("run")
+		if run == nil {
+			r.errf("%s: field run is missing", typ)
+		}
+		// (*parser).callonX
+		sel, ok := run.(*goast.SelectorExpr)
+		if !ok {
+			r.errf("%s: run is not a method expression", typ)
+		}
+		n.Blk = len(r.blocks)
+		bk := byte('p')
+		if typ == "actionExpr" {
+			bk = 'a'
+		} else if typ == "stateCodeExpr" {
+			bk = 's'
+		}
+		r.blocks = append(r.blocks, readBlock{Kind: bk, Run: sel.Sel.Name})
+		if typ == "actionExpr" {
+			n.Kids = []*pvcase.Expr{r.child(f, "expr")}
+		}
+		return n
 	}
 	r.errf("unknown expression type %q", typ)
 	return nil
@@ -507,7 +549,14 @@ func (r *lowerReader) expr(e goast.Expr) *pvcase.Expr {
 
 // readGrammar converts the `&grammar{...}` literal.
 func readGrammar(e goast.Expr, flags pvcase.Flags) (g pvcase.Grammar, err error) {
-	r := &lowerReader{flags: flags}
+	g, _, err = readGrammarCode(e, flags, false)
+	return g, err
+}
+
+// readGrammarCode is readGrammar; with allowCode the code-bearing nodes are read too (readback mode).
+func readGrammarCode(e goast.Expr, flags pvcase.Flags, allowCode bool) (g pvcase.Grammar, blocks []readBlock, err error) {
+	r := &lowerReader{flags: flags, allowCode: allowCode}
+	defer func() { blocks = r.blocks }()
 	defer func() {
 		if x := recover(); x != nil {
 			le, ok := x.(lowerErr)
@@ -552,5 +601,5 @@ func readGrammar(e goast.Expr, flags pvcase.Flags) (g pvcase.Grammar, err error)
 		out.LeftRecursive = r.boolean(f, "leftRecursive", false)
 		g.Rules = append(g.Rules, out)
 	}
-	return g, nil
+	return g, r.blocks, nil
 }
